@@ -101,8 +101,8 @@ var (
 )
 
 const (
-	portBlock  = 360
-	portBlocks = 60 // 10000 .. 31600
+	portBlock  = 180
+	portBlocks = 120 // 10000 .. 31600; parents and the child processes of isolated cases of two concurrent runs fit
 )
 
 func freeAddr() string {
@@ -113,7 +113,7 @@ func freeAddr() string {
 		h.Write([]byte(os.Getenv("VERIF_RUNDIR")))
 		var shard, n int
 		fmt.Sscanf(os.Getenv("VERIF_SHARD"), "%d/%d", &shard, &n)
-		first := int(h.Sum32()%3)*20 + shard%20
+		first := int(h.Sum32()%6)*20 + shard%20
 		for i := 0; i < portBlocks && portBase == 0; i++ {
 			base := 10000 + ((first+i)%portBlocks)*portBlock
 			if l, err := net.Listen("tcp", fmt.Sprintf("127.0.0.1:%d", base)); err == nil {
